@@ -4,6 +4,11 @@ import json, os
 V = os.path.dirname(os.path.dirname(os.path.abspath(__file__)))
 props = [json.loads(l) for l in open(os.path.join(V, 'properties.jsonl'))]
 CHECKS = {
+ 'C01': dict(
+   text="Coq proofs: (1) the type given to every expression tree is the C11 type (rank-based promotions and usual arithmetic conversions vs the size-based rule of type.c); (2) every integer entry of cast_table, regenerated from codegen.c on every run, and the _Bool path, executed on x86-lite on a register holding ANY value of the source type, leaves the representation of the C11-converted value (81 pairs); (3) the instructions selected for + - * / % & | ^ << >> == != < <= and unary - ~ ! compute the C11 result for every operand value for which C11 defines it (signed/unsigned idiv/div with cqo/cdq, sar/shr, setl/setb...), with no #DE. Tie: table translator; the -S instruction text of all 1 458 one-operator functions (16 binary operators x 81 type pairs, unary, casts) equals the proved model's text; generated expression trees on volatile operands in every context (initializer, argument, return, assignment, conditions, op=, ++/--) against the Coq spec.",
+   note="Trusted: Coq kernel, no axioms; tools/gen_casttable.py; x86-lite (Model/X86Int.v) is my reading of the Intel SDM, validated against the CPU only by the run-time programs; extraction (ExtrOcamlBasic + ExtrOcamlString). Not proved: composition of operators into deeper trees (push/pop discipline: C20), control flow of && || ?: (C03), pointers; these are covered by the run-time programs. Known finding: postfix ++/-- on _Bool.",
+   technique="Coq proofs over an x86-lite instruction semantics + translator for the cast table + textual equality of emitted code with the proved model + differential run-time evaluation against the Coq spec",
+   design="5.C01"),
  'C07': dict(
    text="Coq proof, by induction over arbitrary expression trees (all 18 binary and 4 unary operators, casts, ?:, comma, 9 integer types, any depth): the type the compiler assigns (get_common_type by size + the casts add_type/unary() insert) is the C11 type (rank-based promotions and usual arithmetic conversions), and whenever C11 defines the value, the model of eval2 (int64_t wrap-around arithmetic, the (uint64_t) paths, narrow_to_type at every node, eval_div) yields exactly that value; unevaluated operands are not evaluated; a defined expression never reaches a division diagnostic or a host-undefined shift. Tie: every generated expression defined per the Coq spec is compiled into a static initializer (value), sizeof/typeof (type), enum value, array bound, case label, bit-field width and _Alignas positions and ALSO evaluated at run time on volatile operands - all must equal the spec value; undefined divisions must be diagnosed, not crashed on.",
    note="Trusted: Coq kernel, no axioms; extraction + modelrun; the hand-written model Model/ConstFold.v (tied: static-initializer values = model values on every generated case). Implementation-defined choices fixed as gcc/chibicc fix them (signed narrowing wraps, >> arithmetic). Floating constant expressions belong to C02, address constants to C05; the parser from text to AST is tied by correspondence only.",
